@@ -36,7 +36,8 @@ RowClause(c, r) ==
       m11 == FoldSet(LAMBDA p, acc : acc + (p[1] - bx[1]) * (p[2] - bx[3]) * c.conv[p[1] + 1][p[2] + 1], 0, Ml)
       m02 == FoldSet(LAMBDA p, acc : acc + (p[2] - bx[3]) * (p[2] - bx[3]) * c.conv[p[1] + 1][p[2] + 1], 0, Ml)
       m20 == FoldSet(LAMBDA p, acc : acc + (p[1] - bx[1]) * (p[1] - bx[1]) * c.conv[p[1] + 1][p[2] + 1], 0, Ml)
-  IN IF r.segment_area # Cardinality(L) THEN "segment_area_counts_label_pixels"
+  IN IF L = {} THEN "row_label_is_a_label_of_the_map"
+     ELSE IF r.segment_area # Cardinality(L) THEN "segment_area_counts_label_pixels"
      ELSE IF r.bbox # <<bx[3], bx[4], bx[1], bx[2]>> THEN "bbox_is_minimal_box_of_label_pixels"
      ELSE IF Sl = {} THEN (IF r.flux_nan /\ r.area_nan /\ r.min_nan /\ r.bkgsum_nan THEN "ok" ELSE "completely_masked_source_is_nan")
      ELSE IF r.flux_nan \/ r.area_nan \/ r.min_nan THEN "completely_masked_source_is_nan"
